@@ -651,6 +651,7 @@ E2E_PATHS = ['x.po', 'pl.po', 'de.po', 'pl_PL.po', 'pol.po', 'xx.po', 'pl.UTF-8.
              'de/LC_MESSAGES/x.po', 'de_DE.UTF-8/LC_MESSAGES/foo.po', 'de_AT@euro/LC_MESSAGES/foo.po', 'pol/LC_MESSAGES/foo.po', 'xx/LC_MESSAGES/pl.po',
              'LC_MESSAGES/pl.po', 'pl/./LC_MESSAGES/x.po', 'pl/zz/../LC_MESSAGES/x.po', 'pl//LC_MESSAGES//x.po', 'pl/LC_MESSAGES/de/LC_MESSAGES/x.po',
              'pl/LC_MESSAGES/de.po', 'translations/source/da/dictionaries/pl_PL.po', 'translations/source/pt-BR/dictionaries/de.po',
+             'usr/share/locale/de/LC_MESSAGES/foo.mo', 'usr/share/locale/pl_PL.UTF-8/LC_MESSAGES/foo.mo', 'xx/LC_MESSAGES/foo.gmo', 'pl.mo', 'x.gmo',
              'l10n/sr@latin/x/pl.po', 'x/None/pl.po', 'x/pl_PL/de.po', 'x/pl-PL/de.po', 'PL.po', 'pl.po.po', 'pl..po']
 E2E_METAS = [[], [''], ['pl'], ['de'], ['pl_PL'], ['pt_BR'], ['da'], ['sr@latin'], ['de@euro'], ['pl.UTF-8'], ['de_DE.ISO-8859-15@euro'], ['pol'], ['tlh'], ['xx'],
              ['pl_XX'], ['pl_pl'], ['Polish'], ['German'], ['Klingon'], ['pl', 'pl'], ['pl', 'de'], ['xx', 'xx'], ['pl-PL']]
@@ -674,6 +675,25 @@ def po_text(metas, pls, pcs):
     lines += ['', 'msgid "a"', 'msgstr "b"', '']
     return '\n'.join(lines)
 
+def mo_bytes(metas, pls, pcs):
+    """a little-endian GNU MO file with the header entry and one message (layout of gettext's msgfmt: tables, then strings)"""
+    import struct
+    hdr = 'Project-Id-Version: verif 1\nContent-Type: text/plain; charset=UTF-8\n'
+    hdr += ''.join(f'Language: {m}\n' for m in metas) + ''.join(f'X-Poedit-Language: {m}\n' for m in pls) + ''.join(f'X-Poedit-Country: {m}\n' for m in pcs)
+    entries = sorted([(b'', hdr.encode('utf-8')), (b'a', b'b')])
+    n = len(entries)
+    o_tab, t_tab = 28, 28 + 8 * n
+    pos = 28 + 16 * n
+    okeys, ovals, blob = [], [], b''
+    for k, _ in entries:
+        okeys.append((len(k), pos + len(blob))); blob += k + b'\0'
+    for _, v in entries:
+        ovals.append((len(v), pos + len(blob))); blob += v + b'\0'
+    out = struct.pack('<7I', 0x950412de, 0, n, o_tab, t_tab, 0, 0)
+    for l, o in okeys: out += struct.pack('<2I', l, o)
+    for l, o in ovals: out += struct.pack('<2I', l, o)
+    return out + blob
+
 def run_e2e(cases, workers=4):
     """run the real CLI (subprocess) on each case in its own directory; returns the list of language-tag lines `name extras…` per case"""
     import e2e_common as E
@@ -683,8 +703,12 @@ def run_e2e(cases, workers=4):
         for i, (template, opt, path, metas, pls, pcs) in enumerate(cases):
             full = os.path.join(wd.path, f'c{i}', path)      # not normalised: `a/zz/../b` needs `a/zz` to exist
             os.makedirs(os.path.dirname(full), exist_ok=True)
-            with open(full, 'w', encoding='utf-8') as fh:
-                fh.write(po_text(metas, pls, pcs))
+            if path.endswith(('.mo', '.gmo')):
+                with open(full, 'wb') as fh:
+                    fh.write(mo_bytes(metas, pls, pcs))
+            else:
+                with open(full, 'w', encoding='utf-8') as fh:
+                    fh.write(po_text(metas, pls, pcs))
             args = (['--language=' + opt] if opt is not None else []) + [path]
             jobs.append((args, os.path.join(wd.path, f'c{i}')))
         def one(job):
